@@ -53,7 +53,7 @@ def boundary_checks(allapps, tier):
     flagged when its predecessor in this chain is a real run of c cycles and it is itself not reached within
     20c + 20000 cycles (or the machine stops first).  This is where the rule's guard `count > |diff|` is tightest
     (finding F14).  -> (flags, stats)"""
-    fref = 100_000 if tier == 'quick' else 3_000_000
+    fref = 100_000 if tier == 'quick' else 500_000
     chains = {}
     for app in allapps:
         aid, p, st, before, rule, times, after = app
